@@ -81,7 +81,7 @@ def matrix(stages):
     return {"kind": "matrix", "configs": ["default", "nodefault", "all"], "profiles": ["release", "debug"], "stages": stages}
 
 PROFILES = {
-    "C01": {"quick": [CORE4, SEED2, SCALE, dq("mixed")], "thorough": [CORE5, SEED3, CORE3H, FINAL2, SIM, SCALE, dt("mixed"), dt("all")]},
+    "C01": {"quick": [CORE4, SEED2, SIZES2, SCALE, dq("mixed")], "thorough": [CORE5, SEED3, CORE3H, FINAL2, SIM, SCALE, dt("mixed"), dt("all")]},
     "C02": {"quick": [CORE3, SEED2, FAIL2, SIZES2, SCALE, dq("all", True), SUITEQ], "thorough": [CORE4, SEED3, CORE3H, SEED3H, FAILP, SIZES2, SIM, PROOF, SCALE, dt("all", True), SUITET]},
     "C03": {"quick": [CORE3, SEED2, FAIL2, PROOF, dq("all", True), SUITEQ], "thorough": [CORE4, SEED3, CORE3H, SEED3H, FAILP, SIZES2, SIM, PROOF, dt("all", True), SUITET]},
     "C04": {"quick": [conc("own2", "{1,2}", "cQuick2", sample_every=40), conc("lend3", "{1,2,3}", "cLend2", sample_every=40), conc("from2", "{1,2}", "cFrom2", sample_every=40)],
